@@ -1,6 +1,8 @@
 /- Line-protocol driver for the geno views model, C12 (see harness/c12.py). -/
 import Driver.C11Json
 import PgModel.Geno.Views
+import PgModel.Geno.DictCond
+import PgModel.Geno.Lookup
 open Pg Pg.Geno Pg.GenoJson
 
 partial def nestToJ : Nest → J
@@ -33,6 +35,28 @@ partial def beliefs : BDNA → List J
      | some dp => J.arr [.str (renderId dp.id), match dp.sub with | some i => .int i | none => .null]
      | none => .null) :: (cs.map beliefs).flatten
 
+def lvToJ : LV → J
+  | .none => .null
+  | .one d => .obj [("one", dnaToJ d)]
+  | .many ds => .obj [("many", .arr (ds.map optDnaToJ))]
+
+def optLvToJ : Option LV → J
+  | some v => lvToJ v
+  | none => .str "KeyError"
+
+/-- The look-up tables and every `dna[...]` of one bound DNA. -/
+def lookupsOf (g : Spec) (b : BDNA) : J :=
+  let byId := decisionById g b
+  let named := namedDecisions g b
+  .obj [("by_id", .arr (byId.map fun (k, v) => .arr [.str k, lvToJ v])),
+        ("named", .arr (named.map fun (k, v) => .arr [.str k, lvToJ v])),
+        ("ids", .arr ((decisionIds g).map .str)),
+        ("items", .arr (g.dps.map fun dp =>
+          .arr ([optLvToJ (getItemDp byId dp), optLvToJ (getItem byId named (renderId dp.id))] ++
+            (match dp.name with
+             | some nm => [optLvToJ (getItem byId named nm)]
+             | none => []))))]
+
 def optsGrid : List Opts :=
   [0, 1].flatMap fun kt => [0, 1, 2, 3, 4].flatMap fun vt => [0, 1, 2].map fun mk =>
     { keyType := kt, valueType := vt, multi := mk }
@@ -46,17 +70,21 @@ def annotPart (g : Spec) (d : DNA) : List (String × J) :=
 def viewsOf (g : Spec) (d : DNA) : J :=
   let fl := flat d
   .obj ([("norm", dnaToJ d), ("flat", .arr (fl.map valToJ)), ("nested", nestToJ (toNested d)),
-         ("compact", nestToJ (toCompact d)),
+         ("compact", nestToJ (toCompactDeep d)),
          ("from_numbers", optDnaToJ (g.fromNumbers fl)),
          ("parse_nested", optDnaToJ (parse (toNested d))),
-         ("parse_compact", optDnaToJ (parse (toCompact d))),
+         ("parse_compact", optDnaToJ (parse (toCompactDeep d))),
+         ("verbose", .obj [("value", valToJ (toVerbose d).1), ("children", .arr ((toVerbose d).2.map nestToJ))]),
+         ("parse_verbose", optDnaToJ (parseVerbose (toVerbose d))),
          ("valid", .bool (g.valid d))] ++
         (match g.annot d with
          | none => [("beliefs", .null)]
          | some b => [("beliefs", .arr (beliefs b)),
                       ("dicts", .arr (optsGrid.map fun o => dictToJ (toDict o b))),
                       ("from_dicts", .arr (optsGrid.map fun o =>
-                        optDnaToJ (g.fromDict (o.valueType == 3) (toDict o b))))]))
+                        optDnaToJ (g.fromDict (o.valueType == 3) (toDict o b)))),
+                      ("dict_conds", .arr (optsGrid.map fun o => .bool (dictCond o (o.valueType == 3) b))),
+                      ("lookup_tables", lookupsOf g b)]))
 
 def pathOfJ (j : J) : Option (List Nat) := j.asArr?.bind (·.mapM J.asNat?)
 
